@@ -259,7 +259,13 @@ def load_known(prop: str) -> list[dict]:
     if not p.exists():
         return []
     data = json.loads(p.read_text())
-    return [e for e in data.get("findings", []) if e.get("property") == prop]
+    found = [e for e in data.get("findings", []) if e.get("property") == prop]
+    # findings proposed by a builder and not yet merged into known_findings.json by the integrator
+    for f in sorted((VERIF / "findings").glob("*.json")) if (VERIF / "findings").is_dir() else []:
+        e = json.loads(f.read_text())
+        if e.get("property") == prop and not any(x.get("id") == e.get("id") for x in found):
+            found.append(e)
+    return found
 
 
 def write_replay(prop: str, obj: dict) -> str:
